@@ -875,6 +875,20 @@ pub fn stress_shapes(thorough: bool) -> Vec<(String, Vec<u8>)> {
         b.extend(frame_bytes(&[pal, simple_layer(0, LayerKind::Image, 1), image_cel(0, wd, ht, px, Some(9))], 1));
         v.push((format!("bomb-cel-indexed-{}-index", name), b));
     }
+    // two cel chunks for the same frame and layer that are not adjacent in the file (image + image, image + link,
+    // link + image), with another layer's cel in between
+    for (name, first_link, second_link) in [("image-image", false, false), ("image-link", false, true), ("link-image", true, false)] {
+        let img = |l: u16, c: u8| chunk(cel_chunk(&Cel { layer: l, x: 0, y: 0, opacity: 255, content: CelContent::Image { w: 2, h: 2, pixels: vec![c; 16] }, user_data: None }, None, &mut None));
+        let link = |l: u16| chunk(cel_chunk(&Cel { layer: l, x: 0, y: 0, opacity: 255, content: CelContent::Link { frame: 0 }, user_data: None }, None, &mut None));
+        let mut b = header_bytes(3, 2, 2, 32);
+        b.extend(frame_bytes(&[simple_layer(0, LayerKind::Image, 1), simple_layer(0, LayerKind::Image, 1), img(0, 200), img(1, 100)], 1));
+        let a = if first_link { link(0) } else { img(0, 50) };
+        let c = if second_link { link(0) } else { img(0, 60) };
+        b.extend(frame_bytes(&[a, img(1, 70), c], 1));
+        // a third frame links to the doubly defined cel of the second
+        b.extend(frame_bytes(&[chunk(cel_chunk(&Cel { layer: 0, x: 0, y: 0, opacity: 255, content: CelContent::Link { frame: 1 }, user_data: None }, None, &mut None))], 1));
+        v.push((format!("duplicate-cel-not-adjacent-{}", name), b));
+    }
     // degenerate tilesets and tilemaps: zero tiles, zero tile sizes, zero-sized maps, in combination
     for count in [0u32, 1] {
         for (tw, th) in [(0u16, 0u16), (0, 1), (1, 0), (1, 1)] {
